@@ -16,6 +16,8 @@ mod seqcount;
 mod session_matrix;
 #[path = "c01/confmatrix.rs"]
 mod confmatrix;
+#[path = "c01/sidewrites.rs"]
+mod sidewrites;
 use contlib::*;
 use ripd::*;
 use rv::sched::Sched;
@@ -1781,6 +1783,7 @@ fn main() {
     let mut wsg = CaseWriter::new(&a.out.join("sg"), "Model.Frames Model.Log Model.ContStore Model.SessGuard", "check_case_sg", "model_obs_sg", 40).with_base(1_000_000);
     let mut wpc = CaseWriter::new(&a.out.join("pc"), "Model.Frames Model.Log Model.ContStore Model.SessGuard Model.SeqCount", "check_case_pc", "model_obs_pc", 40).with_base(3_000_000);
     let mut waf = CaseWriter::new(&a.out.join("af"), "Model.Frames Model.Log Model.ContStore Model.SessGuard Model.SeqCount", "check_case_af", "model_obs_af", 40).with_base(4_000_000);
+    let mut wsw = CaseWriter::new(&a.out.join("sw"), "Model.Frames Model.Log Model.ContStore Model.C02Decide Model.SeqCreate", "check_case_sw", "model_obs_sw", 20).with_base(7_000_000);
     let mut whd = CaseWriter::new(&a.out.join("hd"), "Model.WireRun Gen.RequestHead", "check_head", "head_obs", 200).with_base(6_000_000);
     if !only_crash {
         // session streams under every configuration switch session.rs branches on (request capture, stateless, tool_choice, ..)
@@ -1790,6 +1793,8 @@ fn main() {
         seqcount::grammar_sessions(&mut ctx, &mut wsg, &mut r2, if thorough { 120 } else { 20 });
         seqcount::append_failures(&mut ctx, &mut waf, &mut r2, thorough);
         seqcount::session_refused_write(&mut ctx);
+        // the STORE's side write (continuities/index.json) fails around every creating call, then the retry
+        sidewrites::store_side_write_failures(&mut ctx, &mut wsw, &mut r2, thorough);
     }
     if only_seq {
         ctx.deadline = std::time::Instant::now();
@@ -1969,8 +1974,9 @@ fn main() {
     wpc.flush();
     waf.flush();
     whd.flush();
+    wsw.flush();
     ctx.res.distinct_nontrivial = ctx.distinct.count();
-    ctx.res.case_files = ctx.w.files.iter().chain(ctx.wmx.files.iter()).chain(wsg.files.iter()).chain(wpc.files.iter()).chain(waf.files.iter()).chain(whd.files.iter()).map(|p| p.display().to_string()).collect();
+    ctx.res.case_files = ctx.w.files.iter().chain(ctx.wmx.files.iter()).chain(wsg.files.iter()).chain(wpc.files.iter()).chain(waf.files.iter()).chain(whd.files.iter()).chain(wsw.files.iter()).map(|p| p.display().to_string()).collect();
     ctx.res.write(&a.out);
     println!("c01: {} schedules, {} oracle violations", ctx.leaves, ctx.res.oracle_violations.len());
 }
